@@ -650,8 +650,29 @@ def rule_llr_range(repo: Repo, rep: Report) -> int:
     return n
 
 
+def tabulate_demodulators(repo: Repo, rep: Report, rule: str, which: str) -> int:
+    """Thorough tier: in addition to the structural / polarity verdicts, the hard or the soft branch of every table-driven
+    demodulator is tabulated at the constellation points of its paired modulator's evaluated tables (own arithmetic)."""
+    n = 0
+    for ci in registered(repo, "register_demodulator"):
+        fi = ci.find_method("forward")
+        if fi is None or fi.cls is not ci:
+            continue
+        mc = ci.module.classes.get(ci.name.replace("Demodulator", "Modulator"))
+        if mc is None or (mc.find_method("_create_constellation") is None and ci.name != "QPSKDemodulator"):
+            continue
+        st_, d_ = (hard_nearest_tabulated if which == "hard" else soft_sign_tabulated)(repo, ci, fi)
+        if st_ is None:
+            continue  # outside the evaluator: the structural verdict stands alone
+        rep.add(rule, fi, f"{ci.name}: {which} branch tabulated (thorough tier)", st_, d_, node=fi.node)
+        n += 1
+    return n
+
+
 def run(repo: Repo, rep: Report, tier: str) -> None:
     rule_llr_range(repo, rep)
+    if tier == "thorough":
+        tabulate_demodulators(repo, rep, "POLARITY-PRODUCER", "soft")
     n_prod = producers(repo, rep)
     n_cons = consumers(repo, rep)
     n_sites = decoder_sites(repo, rep)
